@@ -14,14 +14,14 @@ use serde_json::json;
 use std::sync::Arc;
 use std::time::Instant;
 
-fn lists() -> Vec<Vec<Sig>> {
+pub fn lists() -> Vec<Vec<Sig>> {
     vec![
         vec![Sig::inp("A", 8, 0), Sig::inp("CLK", 1, 0), Sig::out("Q", 8), Sig::out("DONE", 1)],
         vec![Sig::out("DONE", 1), Sig::bidir("Q", 8, V::Num(4)), Sig::inp("CLK", 1, 0), Sig::inp("A", 8, 0)],
     ]
 }
 
-fn alphabet() -> (Vec<Stmt>, Vec<Block>) {
+pub fn alphabet() -> (Vec<Stmt>, Vec<Block>) {
     let l = |n: i64| Entry::Lit(n, Radix::Dec);
     let q = || name("Q");
     let p = |e: Expr| Entry::Paren(e);
@@ -40,7 +40,7 @@ fn alphabet() -> (Vec<Stmt>, Vec<Block>) {
     (atoms, blocks)
 }
 
-fn answers(sigs: &[Sig], omit: Option<&str>, qvals: &[V]) -> Vec<MenuItem> {
+pub fn answers(sigs: &[Sig], omit: Option<&str>, qvals: &[V]) -> Vec<MenuItem> {
     let mut out = vec![];
     for q in qvals {
         for d in [0i64, 1] {
